@@ -99,8 +99,8 @@ CLAIMED = {
             "Fault model: a failing call has no effect. In-memory stores, Ed25519 only. 2 (quick) / 3 (thorough) relationships.",
             "DESIGN.md §3 C09"),
     "C15": ("TLA+ specs KeyStore (sequential key-storage contract) and KeyIdStore (threads with explicit linearisation points) "
-            "model-checked by TLC; every sequential transition replayed on JwkMemStore/KeyIdMemstore (thorough: a sample of "
-            "them also on StrongholdStorage); random histories trace-validated; real thread races checked for linearizability "
+            "model-checked by TLC; every sequential transition replayed on JwkMemStore/KeyIdMemstore (and a sample of "
+            "them on StrongholdStorage); random histories trace-validated; real thread races checked for linearizability "
             "by a TLC trace spec with silent Lin steps",
             "model_checking",
             "Sequential: TLC explores all histories up to 3 (quick) / 4 (thorough) issued key ids x all argument classes and "
@@ -110,10 +110,11 @@ CLAIMED = {
             "Call/Lin/Ret for 3 threads x 5 plans (95 710 states) and shows the non-atomic design fails; races of 2..16 real "
             "threads on one KeyIdMemstore are recorded (call/return stamped by one atomic counter) and KeyIdStoreTrace decides "
             "linearizability of every round by placing the Lin steps itself. BLS12-381 keys (generate_bbs) are slots that "
-            "never sign through JwkStorage::sign. Thorough tier: the same drivers over StrongholdStorage as key store and key-id "
-            "store (every k-th transition, ~4 000; 2 sequential histories; 2 x 300 race rounds).",
-            "Real races sample schedules (design-level interleavings are exhaustive). StrongholdStorage only in the thorough tier "
-            "and only on a sample of the transitions (a fresh snapshot-backed stronghold per case costs ~80 ms). sign_bbs / "
+            "never sign through JwkStorage::sign. The same drivers run over StrongholdStorage as key store and key-id "
+            "store (second harness binary vh_sh): 3 (quick) / 40 (thorough) transitions of every stratum (operation x argument class x kind of the named slot), 1/2 sequential "
+            "histories of 1 500 events, 1/2 x 300 race rounds.",
+            "Real races sample schedules (design-level interleavings are exhaustive). StrongholdStorage "
+            "only on a sample of the transitions (a fresh snapshot-backed stronghold per case costs ~80 ms). sign_bbs / "
             "update_signature (BBS+ proofs) not modelled. Crypto primitives trusted.",
             "DESIGN.md §3 C15"),
     "C20": ("TLA+ spec Resolver (dedup, dispatch, pending handler futures completed in any order, stop at first error) "
